@@ -140,6 +140,9 @@ func (a *Action) Exec(bs map[string]interface{}) ExecResult {
 			return ExecResult{Outcome: "fail"}
 		case "nil-bs":
 			return ExecResult{Outcome: "null"}
+		case "no-events":
+			// what such an execution means is not documented: only totality is asserted
+			return ExecResult{Outcome: "null"}
 		}
 	}
 	w := CopyBs(bs)
